@@ -211,7 +211,13 @@ def handle (args : List String) : String :=
     match paramsOf curve (parseList cs) (ctor == "le") with
     | none => "bad-consts"
     | some P =>
-    if ctor == "fn" then
+    if ctor == "regsize" then
+      -- `hash.Hash.Size()` of the registry id, `Size()` of the hasher it constructs, length of the digest of the empty
+      -- message: all three are the length of the model's `Sum(nil)` on a fresh hasher
+      match rest, (step P init (.sum [])).2 with
+      | [], .bytes v => let n := toHex v.length; s!"{n} {n} {n}"
+      | _, _ => "bad-op"
+    else if ctor == "fn" then
       -- package-level `mimc.Sum(msg)`: one message per token
       " ".intercalate (rest.map (fun m => match decodeBlocks P (pad P (parseBytes m)) with
         | some xs => bytesToHex (encBE P.size (mp P 0 xs))
